@@ -86,8 +86,10 @@ def gen(seed, tier):
         elif x < 0.46:
             # abort while a writer is still open
             ops.append(['openabort', r.randrange(3)])
-        elif x < 0.52:
+        elif x < 0.51:
             ops.append(['sp'])
+        elif x < 0.52:
+            ops.append(['evict'])
         elif x < 0.57:
             ops.append(['rb', r.randrange(3)])
         elif x < 0.70:
@@ -140,6 +142,13 @@ def gen(seed, tier):
             block += [['undo', -1, 1]]
         if r.random() < 0.3:
             block += [['pack', 'after_all']]
+        at = r.randrange(len(ops) + 1)
+        ops[at:at] = block
+    if r.random() < 0.12:
+        # bulk-load pattern: write, savepoint, cache pressure, commit
+        k = r.randrange(3)
+        block = [['write', k, r.choice(('w', 'a'))], ['sp'], ['evict'],
+                 ['commit']]
         at = r.randrange(len(ops) + 1)
         ops[at:at] = block
     ops += [['commit'], ['readB']]
@@ -269,8 +278,12 @@ class M:
     def adopt(self):
         n = dbh.adopt(self.log, self.st.changes
                       if self.kind == 'demoblob' else self.st)
-        oid2k = {b['obj']._p_oid: k for k, b in self.blobs.items()
-                 if b['obj']._p_oid is not None}
+        oid2k = {}
+        for k, b in self.blobs.items():
+            oid = b['obj']._p_oid if b.get('obj') is not None \
+                else b.get('oid')
+            if oid is not None:
+                oid2k[oid] = k
         for t in self.log.txns[len(self.log.txns) - n:]:
             self.commit_log.append(t.tid)
             for r in t.recs:
@@ -512,11 +525,33 @@ class M:
         self.dirty_blob_txn = True
         self.trace.append('create')
 
+    def obj(self, k):
+        """The Blob object of slot k (fetched again from the root after
+        the harness let go of it)."""
+        info = self.blobs[k]
+        if info.get('obj') is None:
+            info['obj'] = self.A.root()['b%d' % k]
+        return info['obj']
+
+    def op_evict(self):
+        """Cache pressure: nothing but the connection's cache refers to
+        the blob objects any more, and the cache is minimised (a blob
+        saved by a savepoint then leaves the cache with its container)."""
+        import gc
+        for info in self.blobs.values():
+            if info.get('obj') is not None and \
+                    info['obj']._p_oid is not None:
+                info['oid'] = info['obj']._p_oid
+                info['obj'] = None
+        self.A.conn.cacheMinimize()
+        gc.collect()
+        self.trace.append('evict')
+
     def op_write(self, k, mode):
         info = self.blobs.get(k)
         if info is None or info['pending'] is None:
             return self.op_create(k)
-        b = info['obj']
+        b = self.obj(k)
         d = self.data()
         old = info['pending']
         if mode == 'w':
@@ -864,7 +899,7 @@ class M:
         info = self.blobs.get(k)
         if info is None or info['pending'] is None:
             return
-        b = info['obj']
+        b = self.obj(k)
         try:
             f = b.open('w')
         except Exception:       # noqa: B902
@@ -986,6 +1021,8 @@ def run(case):
                 m.op_readB()
             elif k == 'wrap':
                 m.op_wrap()
+            elif k == 'evict':
+                m.op_evict()
             elif k == 'holdB':
                 m.op_holdB(op[1])
             elif k == 'openabort':
